@@ -6,6 +6,7 @@ import (
 	"fmt"
 	"go/types"
 	"math/big"
+	"sort"
 	"strconv"
 	"strings"
 
@@ -328,6 +329,21 @@ func (env *SpecEnv) unify(a, b *SV, e *Expr) (*SV, *SV) {
 	if a.T == nil || b.T == nil {
 		stale("operand without value in %s", e)
 	}
+	if SameSort(a.T.S, b.T.S) {
+		return a, b
+	}
+	// a struct stored inside an object (x.f with f of struct type) compared with a struct value: load it
+	loadIf := func(p, q *SV) *SV {
+		if p.Ty != nil && q.T.S.K == KNamed && len(q.T.S.Fields) > 0 && p.T.S.K == KInt {
+			if pt, isPtr := derefType(p.Ty); isPtr {
+				if _, isStruct := pt.Underlying().(*types.Struct); isStruct {
+					return &SV{T: (&Frame{x: env.x}).loadObject(env.heap, p.T, pt), Ty: pt}
+				}
+			}
+		}
+		return p
+	}
+	a, b = loadIf(a, b), loadIf(b, a)
 	if SameSort(a.T.S, b.T.S) {
 		return a, b
 	}
@@ -712,11 +728,79 @@ func (env *SpecEnv) call(e *Expr) *SV {
 		argN(1)
 		a := env.eval(e.Args[0])
 		return &SV{T: x.validOf(env, a, e)}
+	case "unbox":
+		// unbox(x, T): the value of Go type T (a type of the current package, or int/int64/bool) held by interface value x
+		argN(2)
+		a := env.eval(e.Args[0])
+		tn := e.Args[1].Name
+		var ty types.Type
+		switch tn {
+		case "int":
+			ty = types.Typ[types.Int]
+		case "int64":
+			ty = types.Typ[types.Int64]
+		case "bool":
+			ty = types.Typ[types.Bool]
+		case "uint64":
+			ty = types.Typ[types.Uint64]
+		default:
+			ptr := strings.HasPrefix(tn, "P_")
+			base := strings.TrimPrefix(tn, "P_")
+			if env.pkg != nil {
+				if obj := env.pkg.Scope().Lookup(base); obj != nil {
+					ty = obj.Type()
+					if ptr {
+						ty = types.NewPointer(ty)
+					}
+				}
+			}
+		}
+		if ty == nil {
+			stale("unbox: unknown type %s in %s", tn, e)
+		}
+		srt := x.eng.SortOf(ty)
+		if srt.K == KInt && isRefType(ty) {
+			return &SV{T: a.T, Ty: ty}
+		}
+		bn := "box$" + srt.Short()
+		x.eng.DeclareUF(bn, srt, SInt)
+		return &SV{T: App(bn, srt, a.T), Ty: ty}
 	case "typeis":
 		// typeis(x, "pkg.T") / "*pkg.T"
 		argN(2)
 		a := env.eval(e.Args[0])
-		return &SV{T: Eq(x.dynType(a.T), x.typeID(e.Args[1].Name))}
+		tn := e.Args[1].Name
+		if e.Args[1].Kind == "str" || strings.Contains(tn, ".") || strings.Contains(tn, "/") {
+			return &SV{T: And(Neq(a.T, IntLit(0)), Eq(x.dynType(a.T), x.typeID(tn)))}
+		}
+		var ty types.Type
+		switch tn {
+		case "int":
+			ty = types.Typ[types.Int]
+		case "int64":
+			ty = types.Typ[types.Int64]
+		case "bool":
+			ty = types.Typ[types.Bool]
+		case "string":
+			ty = types.Typ[types.String]
+		case "float64":
+			ty = types.Typ[types.Float64]
+		default:
+			ptr := strings.HasPrefix(tn, "P_")
+			base := strings.TrimPrefix(tn, "P_")
+			if env.pkg != nil {
+				if obj := env.pkg.Scope().Lookup(base); obj != nil {
+					ty = obj.Type()
+					if ptr {
+						ty = types.NewPointer(ty)
+					}
+				}
+			}
+		}
+		if ty == nil {
+			stale("typeis: unknown type %s in %s", tn, e)
+		}
+		return &SV{T: And(Neq(a.T, IntLit(0)), Eq(x.dynType(a.T), x.typeIDOf(ty)))}
 	case "isEOF":
 		argN(1)
 		a := env.eval(e.Args[0])
@@ -954,12 +1038,37 @@ func (x *Exec) dynType(r *Term) *Term {
 }
 
 var typeIDs = map[string]int{}
+var typeOfID = map[string]types.Type{}
 
 func (x *Exec) typeID(name string) *Term {
 	if _, ok := typeIDs[name]; !ok {
 		typeIDs[name] = len(typeIDs) + 1
 	}
 	return IntLit(int64(typeIDs[name]))
+}
+
+// typeIDOf registers the Go type behind a dynamic type id (used for "does not implement error" facts).
+func (x *Exec) typeIDOf(t types.Type) *Term {
+	name := t.String()
+	typeOfID[name] = t
+	return x.typeID(name)
+}
+
+var errorIface = types.Universe.Lookup("error").Type().Underlying().(*types.Interface)
+
+// nonErrorTypeIDs: ids of registered concrete types that do not implement error.
+func nonErrorTypeIDs() []int {
+	var out []int
+	for name, t := range typeOfID {
+		if _, isI := t.Underlying().(*types.Interface); isI {
+			continue
+		}
+		if !types.Implements(t, errorIface) {
+			out = append(out, typeIDs[name])
+		}
+	}
+	sort.Ints(out)
+	return out
 }
 
 func (x *Exec) errIs(e, target *Term) *Term {
@@ -1061,6 +1170,17 @@ func (x *Exec) abstractView(env *SpecEnv, name string, a *SV, e *Expr) *SV {
 func (x *Exec) validOf(env *SpecEnv, a *SV, e *Expr) *Term {
 	if a.Ty != nil {
 		if ts, _ := x.typeSpecOf(a.Ty); ts != nil {
+			if _, isPtr := derefType(a.Ty); !isPtr {
+				// struct value with a type spec: its invariants
+				var cs []*Term
+				for _, inv := range ts.Invariants {
+					c := env.child()
+					c.names = nil
+					c.bound = map[string]*SV{"this": a}
+					cs = append(cs, c.evalBool(inv.E))
+				}
+				return And(cs...)
+			}
 			if _, isPtr := derefType(a.Ty); isPtr {
 				var cs []*Term
 				cs = append(cs, Neq(a.T, IntLit(0)))
